@@ -120,6 +120,10 @@ def check_case(case):
     failed_before = False
     nontrivial = False
     operands_kept = []
+    # the non-variable names that exist: the ones the object was created with plus the ones this history has added (kept by
+    # the check itself - the object's own record is what is being examined)
+    known = set(obj.__dict__['_attributes'])
+    added = set()
 
     def invariants(step, op):
         for nm in CO.variables(obj):
@@ -182,8 +186,10 @@ def check_case(case):
                     verdict = 'ok'
                 elif k == 'setitem':
                     raise Reject()
-                elif strict_now and name not in obj.__dict__['_attributes'] and name != 'strict':
+                elif strict_now and name not in known and name != 'strict':
                     verdict = 'strict-reject'
+                elif name in known and name in added:
+                    verdict = 'attribute-update'       # an existing ad hoc name: updates keep working, strict or not
                 else:
                     verdict = 'any'
             elif k == 'setlabel':
@@ -217,7 +223,7 @@ def check_case(case):
                     target, predicted = name, rule_add(CO.dec_operand(op[2]), dtype, n)
                     verdict = 'ok'
             elif k == 'add_attribute':
-                if op[1] in vs or op[1] in obj.__dict__['_attributes']:
+                if op[1] in vs or op[1] in known:
                     raise Reject()
                 verdict = 'any'
         except Reject as r:
@@ -274,6 +280,10 @@ def check_case(case):
             d = snapshot.first_diff_key(before, snapshot.snapshot(obj))
             if d:
                 res.fail(f'strict/rejected-assignment-changed-state/op={k}', f'{detail}: changed {d}')
+        elif verdict == 'attribute-update':
+            nontrivial = nontrivial or bool(strict_now)
+            if not out.ok:
+                res.fail(f'existing-attribute-update-rejected/strict={bool(strict_now)}', f'{detail}: {out!r}; the name was added earlier in this history')
         elif verdict == 'ok':
             if not out.ok:
                 res.fail(f'rejected-fitting/op={k}/operand={oc}/{out.exc_name}', f'{detail}: {out!r}, the shadow rule accepts it '
@@ -297,6 +307,11 @@ def check_case(case):
         else:
             # unspecified / bulk: resynchronise the shadow from the object if the invariants hold
             pass
+        if out.ok and ((k == 'setattr' and verdict in ('any', 'attribute-update') and name not in vs) or k == 'add_attribute'):
+            nm_ = name if k == 'setattr' else op[1]
+            if nm_ not in known:
+                known.add(nm_)
+                added.add(nm_)
         if not invariants(step, op):
             break
         if verdict != 'ok' or not out.ok:
@@ -359,6 +374,17 @@ def gen_singles_and_pairs(pairs):
                             yield {'kind': kind, 'span': desc, 'strict': strict, 'ops': [op], 'strict_rep': 1 + (i // 3) % 2}
                         if kind != 'container' and i % 4 == 0:
                             yield {'kind': kind, 'span': desc, 'strict': strict, 'ops': [op], 'dtype': ['int', 'float32', 'bool'][(i // 4) % 3]}
+                # an ad hoc name is added while strict is off (by assignment or by add_attribute), strict is switched on,
+                # and the name is updated / another one is attempted
+                for nm in ('Q', 'total', 'x'):
+                    for first in (['setattr', ['new', nm], {'scalar': 1}], ['add_attribute', nm, 1],
+                                  ['setattr', ['new', nm], {'list': [1] * n}]):
+                        for srep in (0, 1, 2):
+                            for last in (['setattr', ['new', nm], {'scalar': 7}], ['setattr', ['new', nm], {'list': [1] * (n + 1)}],
+                                         ['add_attribute', nm, 2], ['setattr', ['new', nm + 'q'], {'scalar': 7}]):
+                                yield {'kind': kind, 'span': desc, 'strict': False, 'ops': [first, ['strict', True, srep], last]}
+                                yield {'kind': kind, 'span': desc, 'strict': False,
+                                       'ops': [first, ['strict', True, srep], ['strict', False], ['strict', True], last, last]}
                 if pairs and kind != 'linker':
                     sub = ops[::3]
                     for a, b in itertools.product(sub, repeat=2):
